@@ -1,0 +1,14 @@
+//go:build verif
+// +build verif
+
+package bip39
+
+import "io"
+
+// VerifSwapRandSource replaces the package-level randomness source used by
+// NewMnemonic and returns the previous one. Verification builds only.
+func VerifSwapRandSource(r io.Reader) io.Reader {
+	prev := cryptoRander
+	cryptoRander = r
+	return prev
+}
